@@ -28,6 +28,9 @@ func checkC19(c *Ctx, r *Report) {
 	c19Canonical(c, r)
 	prevStep(c, r, "C19.R1.prev-step")
 	addOriginGate(c, r, "C19.R4.addorigin-gate")
+	r.rule("C19.R4.splitdomainname-gate", 1, "SplitDomainName decides whether the final dot is the root label with IsFqdn(s)")
+	fqdnDecidedByIsFqdn(c, r, "C19.R4.splitdomainname-gate", c.ssaFunc("SplitDomainName"), "SplitDomainName", "a fully qualified name whose last label ends in an escaped backslash keeps the root dot in that label: the labels disagree with IsFqdn / Fqdn and with the wire labels")
+	noCaseChange(c, r, "C19.R4.trim-keeps-case")
 }
 
 // c19Scan: R1.
